@@ -353,6 +353,22 @@ func Plan(tier string, seed uint64) []Cfg {
 		}
 		out = append(out, c)
 	}
+	// every linear-time entry point once under a very low soft memory limit
+	// (4 MiB: thresholds that code derives from the limit are then crossed by a
+	// 10^6-bit input), three callers on one shared input; a PRNG of its own
+	fr := simctl.NewRand(simctl.Mix(seed, 0xf1c5ed))
+	for k, cd := range Catalogue {
+		switch {
+		case cd.Heavy, strings.HasPrefix(cd.Name, "registry["), strings.HasPrefix(cd.Name, "Round"), strings.HasPrefix(cd.Name, "DiscreteFourierTransform"), strings.HasPrefix(cd.Name, "LinearComplexity"), strings.HasPrefix(cd.Name, "MatrixRank"):
+			continue
+		}
+		c := Cfg{Prop: "C18", QSeed: fr.Uint64(), Quantum: []int64{1100, 9000}[fr.Intn(2)], Policy: genPolicy(fr, 200), NumCPU: []int{2, 4, 8}[fr.Intn(3)], MemLimitMB: 4}
+		c.Inputs = []InputSpec{{N: 125000, Seed: fr.Uint64() % 16, Kind: []string{"prf", "biased"}[fr.Intn(2)]}}
+		for t := 0; t < 3; t++ {
+			c.Tasks = append(c.Tasks, []Step{{Call: k, Input: 0}})
+		}
+		out = append(out, c)
+	}
 	return out
 }
 
